@@ -6,6 +6,9 @@ CONSTANTS
   ValidateOnPrint = TRUE
   EagerType = TRUE
   MdVariant = "code"
+  AssignAllFirst = TRUE
+  OperandsMemo = FALSE
+  RenameTaken = FALSE
   HeaderBeforeAssign = FALSE
   GlobalRefresh = "fields"
   AllocaRefresh = "fields"
